@@ -360,3 +360,63 @@ def report_coordinate_keys(ctx, res, rule: str, functions, what: str) -> int:
                       "__hash__ (sets of Points), which carry the tolerance" % (fi.short, use, w, what),
                       construct="%s: raw coordinates as identity `%s`" % (fi.short, txt(k)[:50]))
     return len(functions)
+
+
+# ------------------------------------------------------------------ rounding of computed values
+HASH_ROOTS = {"__hash__", "hash_with_normal", "oriented_hash", "eq_with_normal", "__eq__", "__repr__", "__str__"}
+
+
+def _hash_like(ctx, fi: FunctionInfo, _seen=None) -> bool:
+    """fi is a hash / equality / repr method, or a private helper all of whose callers are"""
+    if fi.name in HASH_ROOTS:
+        return True
+    _seen = _seen or set()
+    if fi.qual in _seen or not fi.name.startswith("_"):
+        return False
+    _seen = _seen | {fi.qual}
+    eng = ctx.types
+    rev = ctx.cache.get("exact.rev_calls")
+    if rev is None:
+        rev = {}
+        for a, bs in eng.call_graph().items():
+            for b in bs:
+                rev.setdefault(b, set()).add(a)
+        ctx.cache["exact.rev_calls"] = rev
+    callers = rev.get(fi.qual, set())
+    if not callers:
+        return False
+    return all(eng.fn_by_qual.get(q) is not None and _hash_like(ctx, eng.fn_by_qual[q], _seen) for q in callers)
+
+
+def report_rounding(ctx, res, rule: str, functions, what: str) -> int:
+    """`round(x, k)` of a coordinate-derived float outside the hash / repr methods: the value that goes on into the geometry is
+    moved by up to 0.5 * 10**-k -- at the default k = 10 that is 5e-11, half the tolerance before any lever arm; multiplied by
+    an unnormalised edge length (ConvexPolygon.__contains__), a direction vector (line parameters) or summed over faces it
+    exceeds eps, and a point that lies exactly on an edge / plane is judged outside.  Returns the number of functions scanned."""
+    n = 0
+    for fi in functions:
+        n += 1
+        if _hash_like(ctx, fi):
+            continue
+        for c in walk_local(fi.node):
+            if not (isinstance(c, ast.Call) and isinstance(c.func, ast.Name) and c.func.id == "round" and fi.resolve("round") is None):
+                continue
+            prec = c.args[1] if len(c.args) >= 2 else next((k.value for k in c.keywords if k.arg == "ndigits"), None)
+            if prec is None or not c.args:
+                continue
+            if isinstance(prec, ast.Constant) and prec.value is None:
+                continue
+            a0 = c.args[0]
+            if isinstance(a0, ast.Constant):
+                continue
+            if isinstance(a0, ast.Call) and isinstance(a0.func, ast.Name) and a0.func.id in INT_CALLS:
+                continue
+            w = float_source(ctx, fi, a0) or "a computed number"
+            res.ob(rule, fi.where(c), "%s: `%s`" % (fi.short, txt(c)[:50]), False, "a computed value is rounded outside the hash methods (%s)" % (w or "a Point / Vector"))
+            res.violation(rule, fi, c,
+                          "%s rounds a computed value that goes on into the geometry: `%s` (%s). Rounding to the hash precision moves it by "
+                          "up to 5e-11; multiplied by an unnormalised edge or direction vector, or summed, that exceeds the tolerance 1e-10: "
+                          "a point exactly on an edge is judged outside, a vertex leaves its face plane, %s is off by more than eps. "
+                          "Rounding belongs to __hash__ only" % (fi.short, txt(c)[:60], w or "coordinates", what),
+                          construct="%s: rounds `%s`" % (fi.short, txt(c.args[0])[:40]))
+    return n
